@@ -210,6 +210,26 @@ def check_committed_alone(task):
                     return _viol("committed-set-view", f"files committed at commit {j} show a different state", tr, {"commit": j, "phase": "commit-done"}), n
             finally:
                 r.close()
+            # recovery from a stale/partial view: continuing from the files of the PREVIOUS commit while the
+            # container of commit j exists must not damage any committed file (it may fail)
+            if j >= 2:
+                n += 1
+                prev = [os.path.join(d, f) for f in tr["commits"][j - 2]["files"] if f.endswith(".ih5")]
+                from pathlib import Path as _P
+
+                try:
+                    rr = cls([_P(p) for p in prev], "r+")
+                    try:
+                        rr.close(commit=False)
+                    except Exception:
+                        pass
+                except BaseException as e:
+                    if isinstance(e, (KeyboardInterrupt, SystemExit)):
+                        raise
+                for name, b in img.items():
+                    p = os.path.join(d, name)
+                    if not os.path.exists(p) or open(p, "rb").read() != b:
+                        return _viol("retry-from-older-state-damages-committed", f"opening the files of commit {j-1} with 'r+' while the container of commit {j} exists changed/removed committed file {name}", tr, {"commit": j, "phase": "retry"}), n
         finally:
             env.rmtree(d)
     return None, n
@@ -227,6 +247,9 @@ def scenarios(tier, seed):
         "attr": [["sa", A, a, "abs"], ["da", "/", k, "abs"]],
     }
     out = []
+    # empty patches: a committed empty patch followed by a filled one, and an empty final patch
+    out.append(S1 + [["B"], ["B"]] + fills["set"])
+    out.append(S1 + [["B"]])
     if tier == "quick":
         for S in (S1, S2):
             for f in fills.values():
